@@ -38,6 +38,8 @@ def _flat(parts):
 def extra(case, lines, rot):
     if case['err'] != 'none' or case['f11']:
         return []
+    if any(b.get('shape') in ('f9', 'f10') for b in case['blocks']):
+        return []                         # known findings F9/F10 (C01): these doctests cannot be parsed at all
     from xdoctest import doctest_example, parser
     bad = []
     text = '\n'.join(lines)
@@ -115,6 +117,7 @@ def run(tier):
     out = common.Outcome('C18', tier)
     parselib.self_check_templates()
     parselib._JOB['outcome_only_when_f11'] = True       # docstrings with the known finding F11 are the business of C13/C01
+    parselib._JOB['skip_shapes'] = ('f9', 'f10')
     out.rule = 'every docstring of <= N building blocks over C01_Blocks in DocParse.tla with the second (re-parse) round; replay of the finished docstrings (sampled where stated)'
     # spec level: the second round
     n = 3
